@@ -47,6 +47,21 @@ CHECKS["C13"] = (
     "renormalisation rule (valid weight > 1/2) for all NaN placements; two-coordinate grid interpolation is bilinear; "
     "spectra interpolate E linearly and moments energy-weighted in time/frequency with the extrapolation value outside; "
     "np.empty is modelled as unconstrained symbols.", "DESIGN.md#c13", "")
+CHECKS["C02"] = (
+    "For direction grids of 3..5 bins (thorough 8; uniform from 0, uniform offset 7.5 deg, non-uniform, and a fully "
+    "symbolic increasing grid with bins < 180 deg): wrapped bin widths are positive, equal the forward differences and "
+    "sum to 360; e(f)=sum E*dtheta, a1/b1/a2/b2 times e equal the cos/sin weighted sums (NaN bins skipped); "
+    "integrate_spectral_data and the numba kernels use the same quadrature; as_frequency_spectrum carries e, the four "
+    "moments, m0..m2 and time/latitude/longitude/depth; for E>=0 the moments lie in the unit disc (chain of "
+    "solver-checked convexity steps).", "DESIGN.md#c02", "")
+CHECKS["C14"] = (
+    "Periodic coordinate: for fully symbolic grids of 3..4 nodes (thorough 5) with arbitrary start and any real target "
+    "x (and x+360m): indices are the cyclic neighbours incl. the wrap bin, weights (1-t,t) with t in [0,1), never "
+    "missing, identical for shifted targets; datasets along direction/longitude axes give the cyclic linear value. "
+    "Angular data: result is congruent mod 360 to the angle of the (1-t),t weighted unit-vector sum of the two "
+    "neighbours, in [0,360) for direction variables. interpolate_periodic (data frames / tracks): result congruent to "
+    "fp0 + t*d with d the difference wrapped into [-180,180), inside the discontinuity window, NaN or end value "
+    "outside. Mixed integer/real queries are decided by z3 with cvc5 as second solver.", "DESIGN.md#c14", "")
 NA = {}
 
 ALL = [f"C{i:02d}" for i in range(1, 21)]
